@@ -134,6 +134,14 @@ Definition send_error (src : node) (t : list event) : N :=
   | _ => SE_NONE
   end.
 
+(* SendMessageWithHopsToLive as the caller sees it: service names longer than the 8-byte field
+   are refused before anything happens (error class 4, no event at all); otherwise everything the
+   datagram causes and the error class of a failure at the origin *)
+Definition SE_TOOLONG : N := 4.
+Definition send_api (w : world) (src fsvc to tsvc data : bytes) (h : nat) : list event * N :=
+  if send_refused fsvc tsvc then ([], SE_TOOLONG)
+  else let t := send w src fsvc to tsvc data h in (t, send_error src t).
+
 (* ---------- next-hop chains (the "current route" of the property) ---------- *)
 
 (* ns = n0 :: n1 :: ... :: nd with nd = dst the first occurrence of dst, each link being the
@@ -322,8 +330,8 @@ Inductive probe :=
 Definition probe_check (w : world) (p : probe) : bool :=
   match p with
   | PSend src fsvc to tsvc data h taps err dlv ntf =>
-    let t := send w src fsvc to tsvc data (N.to_nat h) in
-    list_eqb fwd_eqb (forwards t) taps && (send_error src t =? err) &&
+    let '(t, e) := send_api w src fsvc to tsvc data (N.to_nat h) in
+    list_eqb fwd_eqb (forwards t) taps && (e =? err) &&
     list_eqb dlv_eqb (deliveries t) dlv && list_eqb ntf_eqb (notifications t) ntf
   | PPing src target eph h res => ping_eqb (ping w src target eph (N.to_nat h)) res
   | PTrace src target eph res => list_eqb ping_eqb (traceroute w src target eph) res
